@@ -69,6 +69,7 @@ func FuzzRange(f *testing.F) {
 	for i, e := range ecos {
 		for k := 0; k < 8; k++ {
 			f.Add(uint8(i), gen.RangeOne(e.Name, r), gen.One(e.Name, r))
+			f.Add(uint8(i), gen.HostileRange(e.Name, r), gen.One(e.Name, r))
 		}
 	}
 	f.Fuzz(func(t *testing.T, idx uint8, rs, vs string) {
